@@ -5,8 +5,9 @@ Seams (all stated in props/C14.py TRUSTED):
   * `jsonschema` validator `check_schema` is memoised by *schema content* (it re-validates the
     constant spec-class schema against the metaschema on every call, ~0.14 s each); the stream
     `seam` re-runs a sample without the memo and compares outcomes;
-  * SIGALRM watchdog raising a BaseException in the main thread (the `re` engine and PyYAML's
-    pure-python loader both poll signals).
+  * hang detection on CPU time of this process (ITIMER_PROF -> SIGPROF raising a BaseException in the main
+    thread; the `re` engine and PyYAML's pure-python loader both poll signals), limit calibrated in-process
+    (see calibrate); a wall-clock SIGALRM watchdog (>= 300 s) only produces an infrastructure error.
 """
 import copy
 import inspect
@@ -105,8 +106,67 @@ def memo_off():
 
 
 # ---------------------------------------------------------------- guarded call
-def _alarm(signum, frame):
+def _cpu_alarm(signum, frame):
     raise Hang()
+
+
+class WallTimeout(BaseException):
+    """wall-clock watchdog: infrastructure only (exit 2), never a verdict about the code."""
+
+
+def _wall_alarm(signum, frame):
+    raise WallTimeout()
+
+
+CPU_LIMIT_MIN = 5.0          # seconds of CPU time
+CPU_LIMIT_FACTOR = 200       # x the CPU time of parsing the largest bundled definition
+WALL_GUARD_MIN = 300.0       # seconds of wall time; only an infrastructure guard
+
+
+def cpu_now():
+    import time
+    return time.process_time()
+
+
+def calibrate(texts):
+    """Hang detection is load independent: it counts the *CPU time of this process* (ITIMER_PROF /
+    process_time), and the limit is calibrated in this very process against a fixed reference workload:
+    limit = max(5 s CPU, 200 x CPU time of validating the largest bundled definition that parses)."""
+    st = _state
+    if 'cpu_limit' in st:
+        return st['cpu_limit']
+    sp = st['sp']
+    ref = 0.0
+    ref_name = None
+    cands = sorted(texts, key=lambda p: -len(p[1]))[:4]
+    for name, text in cands:
+        best = None
+        for _ in range(2):
+            t0 = cpu_now()
+            try:
+                sp.get_workflow_list_spec_from_yaml(text, validate=True)
+            except Exception:
+                try:
+                    sp.get_workbook_spec_from_yaml(text, validate=True)
+                except Exception:
+                    pass
+            dt = cpu_now() - t0
+            best = dt if best is None else min(best, dt)
+        if best > ref:
+            ref, ref_name = best, name
+    if ref_name is None:
+        # no bundled definitions at hand (replay): a fixed synthetic reference
+        text = "version: '2.0'\nwf:\n  tasks:\n" + ''.join(
+            '    t%d:\n      action: std.echo output=<%% $.x %%>\n      on-success: [t%d]\n' % (i, i + 1)
+            for i in range(60)) + '    t60: {action: std.noop}\n'
+        t0 = cpu_now()
+        sp.get_workflow_list_spec_from_yaml(text, validate=True)
+        ref, ref_name = cpu_now() - t0, '<synthetic 61-task workflow>'
+    st['cpu_ref'] = ref
+    st['cpu_ref_name'] = ref_name
+    st['cpu_limit'] = max(CPU_LIMIT_MIN, CPU_LIMIT_FACTOR * ref)
+    st['wall_guard'] = max(WALL_GUARD_MIN, 20 * st['cpu_limit'])
+    return st['cpu_limit']
 
 
 def site_of(tb, pkg_dir):
@@ -121,27 +181,35 @@ def site_of(tb, pkg_dir):
     return best or (lib, ''), lib
 
 
-def guarded(fn, limit):
-    """-> (kind, detail, value); kind in ok | declared | undeclared | hang."""
+def guarded(fn, factor=1.0):
+    """-> (kind, detail, value); kind in ok | declared | undeclared | hang.
+    `hang` = the call used more than factor x cpu_limit seconds of *CPU time* (see calibrate); the wall-clock
+    watchdog (>= 300 s) raises WallTimeout (a BaseException), which props/C14.py turns into an infrastructure
+    error (exit 2), never a VIOLATION."""
     st = _state
     exc = st['exc']
-    import time
-    old = signal.signal(signal.SIGALRM, _alarm)
-    t0 = time.time()
-    signal.setitimer(signal.ITIMER_REAL, limit)
+    limit = st.get('cpu_limit', CPU_LIMIT_MIN) * factor
+    wall = st.get('wall_guard', WALL_GUARD_MIN) * max(1.0, factor)
+    old_prof = signal.signal(signal.SIGPROF, _cpu_alarm)
+    old = signal.signal(signal.SIGALRM, _wall_alarm)
+    t0 = cpu_now()
+    signal.setitimer(signal.ITIMER_REAL, wall)
+    signal.setitimer(signal.ITIMER_PROF, limit)
     try:
         try:
             v = fn()
-            signal.setitimer(signal.ITIMER_REAL, 0)
+            signal.setitimer(signal.ITIMER_PROF, 0)
             return 'ok', None, v
         finally:
+            signal.setitimer(signal.ITIMER_PROF, 0)
             signal.setitimer(signal.ITIMER_REAL, 0)
-            el = (time.time() - t0) / limit
-            if el < 0.98:
-                st['max_fraction_of_limit'] = max(st.get('max_fraction_of_limit', 0.0), el)
+            used = cpu_now() - t0
+            st['last_cpu'] = used
+            if used < 0.98 * limit:
+                st['max_fraction_of_limit'] = max(st.get('max_fraction_of_limit', 0.0), used / limit)
     except Hang as e:
         (site, line), lib = site_of(e.__traceback__, st['pkg_dir'])
-        return 'hang', {'limit_s': limit, 'site': site, 'line': line, 'lib': lib, 'exc': 'hang', 'msg': ''}, None
+        return 'hang', {'limit_s': round(limit, 1), 'site': site, 'line': line, 'lib': lib, 'exc': 'hang', 'msg': ''}, None
     except exc.MistralFailuresBase as e:
         code = getattr(e, 'http_code', 500)
         name = type(e).__name__
@@ -160,6 +228,7 @@ def guarded(fn, limit):
                               'msg': str(e)[:200]}, None
     finally:
         signal.signal(signal.SIGALRM, old)
+        signal.signal(signal.SIGPROF, old_prof)
         _rollback_if_open()
 
 
@@ -290,3 +359,41 @@ def first_diff(a, b, path=''):
 
 def dcopy(x):
     return copy.deepcopy(x)
+
+
+def hot_site(fn, interval):
+    """Run fn() while sampling (on CPU time) the innermost frame inside the mistral package; returns the most
+    frequent (site, source line) and the CPU time used."""
+    import collections
+    import linecache
+    st = _state
+    pkg = st['pkg_dir'] + os.sep
+    counts = collections.Counter()
+
+    def tick(signum, frame):
+        f = frame
+        while f is not None:
+            fn_ = os.path.abspath(f.f_code.co_filename)
+            if fn_.startswith(pkg) and '/tests/' not in fn_:
+                counts[('mistral/' + os.path.relpath(fn_, st['pkg_dir']) + ':' + f.f_code.co_name,
+                        linecache.getline(fn_, f.f_lineno).strip())] += 1
+                return
+            f = f.f_back
+    old = signal.signal(signal.SIGPROF, tick)
+    old_alarm = signal.signal(signal.SIGALRM, _wall_alarm)
+    signal.setitimer(signal.ITIMER_REAL, st.get('wall_guard', WALL_GUARD_MIN))
+    signal.setitimer(signal.ITIMER_PROF, interval, interval)
+    t0 = cpu_now()
+    try:
+        try:
+            fn()
+        except Exception:
+            pass
+    finally:
+        signal.setitimer(signal.ITIMER_PROF, 0)
+        signal.setitimer(signal.ITIMER_REAL, 0)
+        signal.signal(signal.SIGPROF, old)
+        signal.signal(signal.SIGALRM, old_alarm)
+        _rollback_if_open()
+    used = cpu_now() - t0
+    return (counts.most_common(1)[0][0] if counts else ('<no sample>', '')), used
